@@ -37,11 +37,24 @@ LOOPS = {
 UNITS = {'FileHDF5_close': dict(file=FH, locator=r'void\s+FileHDF5::close\s*\(', cls='FileHDF5c', cls_decl='FileHDF5', cls_file=FHH,
                                 classes=['FileHDF5c', 'H5GroupC'], member_types={'data': 'H5GroupC', 'metadata': 'H5GroupC', 'root': 'H5GroupC'},
                                 member_calls={'isOpen': 'FileHDF5c_isOpen'}, inherited_members=['hid'], pre_rules=[vec_hid_rule], post_rules=[objs_data], loops=LOOPS)}
+FF = dict(cls='FileF', cls_decl='File', cls_file='include/nix/File.hpp', classes=['FileF'], inherited_methods=['isNone', 'nullify'], member_calls={'isNone': 'FileF_isNone', 'nullify': 'FileF_nullify', 'fileMode': 'FileF_fileMode', 'isOpen': 'FileF_isOpen'})
+FB = dict(cls='FileHDF5f', cls_decl='FileHDF5', cls_file=FHH, classes=['FileHDF5f', 'HErr', 'H5GroupR'], inherited_members=['hid'], inherited_methods=['isValid'], member_types={'root': 'H5GroupR', 'data': 'H5GroupR', 'metadata': 'H5GroupR'},
+          member_calls={'isValid': 'FileHDF5f_isValid', 'close': 'FileHDF5f_close', 'fileMode': 'FileHDF5f_fileMode'})
+UNITS.update({
+    'File_flush': dict(FF, file='src/File.cpp', locator=r'bool\s+File::flush\s*\('),
+    'File_close': dict(FF, file='src/File.cpp', locator=r'void\s+File::close\s*\('),
+    'FileHDF5_flush': dict(FB, file=FH, locator=r'bool\s+FileHDF5::flush\s*\('),
+    'FileHDF5_isOpen': dict(FB, file=FH, locator=r'bool\s+FileHDF5::isOpen\s*\('),
+    'FileHDF5_dtor': dict(FB, file=FH, locator=r'FileHDF5::~FileHDF5\s*\(', ctor=True),
+})
+SMALL_EXTRA = ('int gh_be_flushes, gh_be_flush_result, gh_be_closes, gh_nullified, gh_closes_at_nullify; int gh_h5_flushes, gh_h5_flush_err, gh_h5_flush_scope, gh_close_calls; hid_t gh_h5_flush_id;\n')
 EXTRA = ('int gh_ref[H5_IDS]; bool gh_is_open; ssize_t gh_obj_count, gh_ids_result; hid_t gh_listed[H5_IDS];\n'
          'int gh_group_closes, gh_file_closes; int gh_ref_k_at_file_close; int gh_group_closes_at_file_close;\n')
 JOBS = [dict(name='FileHDF5_close', bodies=['FileHDF5_close'], enforce=['FileHDF5_close'], replace=[], extra_c=EXTRA, loop_contracts=True,
              cbmc_flags=['--unwind', '9', '--unwinding-assertions'], expect_kinds=['postcondition', 'loop_invariant_step'], timeout=900)]
-SPEC = dict(contracts=['c11_close.h'], stubs=[], units=UNITS, jobs=JOBS,
+JOBS += [dict(name=fn, bodies=[fn], enforce=[fn], replace=[], includes=['c11_small.h'], extra_c=SMALL_EXTRA, expect_kinds=['postcondition'], timeout=300)
+         for fn in ('File_flush', 'File_close', 'FileHDF5_flush', 'FileHDF5_isOpen', 'FileHDF5_dtor')]
+SPEC = dict(contracts=['c11_close.h', 'c11_small.h'], stubs=[], include_order=['c11_close.h'], units=UNITS, jobs=JOBS,
             trusted_base=['CBMC 6.11.0 (C front end, --dfcc, loop contracts, SAT back end)', 'vlib/cxx2c.py idiom map',
                           'libhdf5 identifier table modelled as a ghost array of 64 reference counts: H5Fget_obj_count / H5Fget_obj_ids / H5Iget_ref / H5Oclose are definitional stubs written from the HDF5 manual'],
             assumptions=['at most 64 open identifiers (size of the ghost table; the loops themselves are closed by loop contracts)',
